@@ -368,7 +368,7 @@ pub fn check_step(before: &Snap, op: &Op, after: &Snap, clip_override: Option<([
         let (trect, tb) = before.top();
         let (_, ta) = after.top();
         let (crect, cmask) = clip_override.unwrap_or_else(|| before.clip());
-        let tw = trect[2] - trect[0];
+        let tw = trect[2].saturating_sub(trect[0]);
         if ta.len() != tb.len() {
             return Err(StepViolation { kind: Kind::StateChanged, clause: "top-buffer-size".into(), detail: "top buffer changed size".into() });
         }
@@ -481,8 +481,8 @@ pub fn check_step(before: &Snap, op: &Op, after: &Snap, clip_override: Option<([
             let (_, pa) = after.top();
             let (crect, cmask) = clip_override.unwrap_or_else(|| before.clip());
             let ob = pix::alpha_byte(l.opacity.max(0.0).min(1.0));
-            let pw = prect[2] - prect[0];
-            let lw = l.rect[2] - l.rect[0];
+            let pw = prect[2].saturating_sub(prect[0]);
+            let lw = l.rect[2].saturating_sub(l.rect[0]);
             for py in prect[1]..prect[3] {
                 for px in prect[0]..prect[2] {
                     let bi = ((py - prect[1]) * pw + (px - prect[0])) as usize;
